@@ -144,15 +144,19 @@ def wf_errors(fn, ssa):
             continue
         reach.add(x)
         work += succ.get(x, [])
-    try:
-        for e in find_semantic_errors_fn(fn):
-            inst = getattr(e, "inst", None)
-            if inst is not None and inst.parent.label.value not in reach:
-                continue
-            errs.append(("check_venom." + type(e).__name__, str(e)))
-    except Exception as e:  # noqa
-        errs.append(("check_venom.exception", f"{type(e).__name__}: {e}"))
+    all_reachable = len(reach) == len(labels)
+    if all_reachable:
+        try:
+            for e in find_semantic_errors_fn(fn):
+                errs.append(("check_venom." + type(e).__name__, str(e)))
+        except Exception as e:  # noqa
+            errs.append(("check_venom.exception", f"{type(e).__name__}: {e}"))
+    else:
+        # check_venom's VarDefinition analysis also flows through unreachable predecessors (which SCCP and friends leave
+        # behind for the next SimplifyCFG); redo "terminated" + "defined on every path before use" on the reachable sub-CFG
+        errs += _defuse_errors(fn, reach, succ)
     preds = {bb.label.value: set() for bb in fn.get_basic_blocks()}
+    preds_all = {bb.label.value: set() for bb in fn.get_basic_blocks()}
     defs = {}
     for bb in fn.get_basic_blocks():
         insts = bb.instructions
@@ -174,8 +178,10 @@ def wf_errors(fn, ssa):
                         continue
                     if op.value not in labels:
                         errs.append(("branch-target-missing", f"{bb.label.value}: {t}"))
-                    elif bb.label.value in reach:
-                        preds[op.value].add(bb.label.value)
+                    else:
+                        preds_all[op.value].add(bb.label.value)
+                        if bb.label.value in reach:
+                            preds[op.value].add(bb.label.value)
     if ssa:
         for v, ds in defs.items():
             if len(ds) > 1:
@@ -192,10 +198,58 @@ def wf_errors(fn, ssa):
             # every phi argument must come from a CFG predecessor (extra predecessors without an argument are
             # tolerated: the value is then undefined on that edge and VarDefinition reports uses)
             for l in labs:
-                if l not in preds[bb.label.value]:
-                    errs.append(("phi-label-not-predecessor", f"{bb.label.value}: {inst} preds={sorted(preds[bb.label.value])}"))
-            if ssa and set(labs) != preds[bb.label.value]:
+                if l not in preds_all[bb.label.value]:
+                    errs.append(("phi-label-not-predecessor", f"{bb.label.value}: {inst} preds={sorted(preds_all[bb.label.value])}"))
+            if ssa and not (preds[bb.label.value] <= set(labs)):
                 errs.append(("phi-arity", f"{bb.label.value}: {inst} preds={sorted(preds[bb.label.value])}"))
+    return errs
+
+
+def _defuse_errors(fn, reach, succ):
+    from vyper.venom.basicblock import IRVariable
+    errs = []
+    blocks = {bb.label.value: bb for bb in fn.get_basic_blocks() if bb.label.value in reach}
+    for bb in blocks.values():
+        if not bb.is_terminated:
+            errs.append(("check_venom.BasicBlockNotTerminated", bb.label.value))
+    if errs:
+        return errs
+    preds = {l: [] for l in blocks}
+    for l in blocks:
+        for s2 in succ[l]:
+            if s2 in preds:
+                preds[s2].append(l)
+    gen = {l: {o.value for inst in bb.instructions for o in inst.get_outputs()} for l, bb in blocks.items()}
+    universe = set().union(*gen.values()) if gen else set()
+    entry = fn.entry.label.value
+    out = {l: set(universe) for l in blocks}
+    out[entry] = set(gen[entry])
+    changed = True
+    while changed:
+        changed = False
+        for l in blocks:
+            if l == entry:
+                inn = set()
+            else:
+                ps = preds[l]
+                inn = set.intersection(*[out[p] for p in ps]) if ps else set()
+            new = inn | gen[l]
+            if new != out[l]:
+                out[l] = new
+                changed = True
+    for l, bb in blocks.items():
+        cur = set() if l == entry else (set.intersection(*[out[p] for p in preds[l]]) if preds[l] else set())
+        for inst in bb.instructions:
+            if inst.opcode == "phi":
+                for lab, op in inst.phi_operands:
+                    if lab.value in blocks and isinstance(op, IRVariable) and op.value not in out[lab.value]:
+                        errs.append(("check_venom.VarNotDefined", f"{op} (phi argument from {lab.value}) in {l}: {inst}"))
+            else:
+                for op in inst.operands:
+                    if isinstance(op, IRVariable) and op.value not in cur:
+                        errs.append(("check_venom.VarNotDefined", f"{op} in {l}: {inst}"))
+            for o in inst.get_outputs():
+                cur.add(o.value)
     return errs
 
 
